@@ -148,6 +148,8 @@ type ReverseInnerSearcher struct {
 	reverseNFA      *nfa.NFA
 	reverseDFA      *lazy.DFA
 	forwardDFA      *lazy.DFA
+	fullDFA         *lazy.DFA // Forward DFA of the FULL pattern: finds match end once match start is known
+	fullCachePool   sync.Pool // Caches for fullDFA
 	prefilter       prefilter.Prefilter
 	pikevm          *nfa.PikeVM
 	innerLen        int  // Length of the inner literal for calculating positions
@@ -255,6 +257,16 @@ func NewReverseInnerSearcher(
 		return nil, err
 	}
 
+	// Build forward DFA from the FULL pattern (rust-regex runs the core regex anchored at
+	// the start found by the reverse scan). The suffix DFA only says that the suffix matches
+	// at this candidate; the match END has to follow the priorities of the whole pattern:
+	// a greedy prefix that can run over the inner literal (`.*@a*` on "@@@") prefers the
+	// LAST viable candidate, so the end computed from the first candidate is too short.
+	fullDFA, err := lazy.CompileWithConfig(fullNFA, config)
+	if err != nil {
+		return nil, err
+	}
+
 	// Create PikeVM for fallback (uses full pattern)
 	pikevm := nfa.NewPikeVM(fullNFA)
 
@@ -272,6 +284,7 @@ func NewReverseInnerSearcher(
 		reverseNFA:      reverseNFA,
 		reverseDFA:      reverseDFA,
 		forwardDFA:      forwardDFA,
+		fullDFA:         fullDFA,
 		prefilter:       pre,
 		pikevm:          pikevm,
 		innerLen:        innerLen,
@@ -285,7 +298,23 @@ func NewReverseInnerSearcher(
 	s.revCachePool = sync.Pool{
 		New: func() any { return s.reverseDFA.NewCache() },
 	}
+	s.fullCachePool = sync.Pool{
+		New: func() any { return s.fullDFA.NewCache() },
+	}
 	return s, nil
+}
+
+// matchEndFrom returns the end of the match that starts at matchStart, using the
+// full-pattern forward DFA anchored at matchStart. suffixEnd (the end found by the
+// suffix DFA from the first confirmed candidate) is only a fallback.
+func (s *ReverseInnerSearcher) matchEndFrom(haystack []byte, matchStart, suffixEnd int) int {
+	cache := s.fullCachePool.Get().(*lazy.DFACache)
+	end := s.fullDFA.SearchAtAnchored(cache, haystack, matchStart)
+	s.fullCachePool.Put(cache)
+	if end < 0 {
+		return suffixEnd
+	}
+	return end
 }
 
 // Find searches using inner literal prefilter + bidirectional DFA and returns the match.
@@ -412,8 +441,8 @@ func (s *ReverseInnerSearcher) Find(haystack []byte) *Match {
 		}
 
 		// EARLY RETURN: First confirmed match is leftmost by construction!
-		// Forward DFA already finds the longest match from this start position.
-		matchEnd := pos + matchEndRel
+		// The match end is determined by the whole pattern from that start.
+		matchEnd := s.matchEndFrom(haystack, matchStart, pos+matchEndRel)
 		return NewMatch(matchStart, matchEnd, haystack)
 	}
 
@@ -582,8 +611,8 @@ func (s *ReverseInnerSearcher) findIndicesAtImpl(haystack []byte, at int, fwdCac
 			continue
 		}
 
-		// Found valid match
-		matchEnd := pos + matchEndRel
+		// Found valid match - the match end is determined by the whole pattern
+		matchEnd := s.matchEndFrom(haystack, matchStart, pos+matchEndRel)
 		return matchStart, matchEnd, true
 	}
 
